@@ -18,7 +18,14 @@ CHANGED with respect to the first version of the statements (every change is jus
   dependency-group node in the ready set (`react_needs_ready_group`) + resolved dependency-group nodes only have soft
   outstanding entries (`react_needs_group_soft`); `init_safe_inv` establishes it for the initial state, so
   `legal_history_never_panics` has no new state hypothesis.
-`ResolvedClosed`, `LegalEvent`, `LegalHistory` and the graph-level statements are unchanged (the hypothesis `g.Inv` of
+CHANGED with the repair of finding F11 (`onStageComplete` records `finishedStages` and, when called from OnStepComplete,
+calls `markRemainingStagesUnresolvable`; counterexamples in `LoopFinishedCex.lean`):
+* `Event.stepComplete` is a new event; `LegalEvent` gives it the contract of a stage change with a previous stage;
+* `LoopSafeInv` has the new clause `finished : FinishedInv P s` (`react_needs_finished_inv`): a resolved stage /
+  stage-output node belongs to a stage recorded in `finishedStages`; true initially (`init_finished_inv`) and kept by
+  every callback naming declared stages and outputs (`react_finished_inv`, `LoopFinished.lean`);
+* `Prepared.WF2` has the new clause `stage_unamb` (`hist_needs_stage_unamb`): stage node ids are unambiguous.
+`ResolvedClosed`, `LegalEvent` (on the old events), `LegalHistory` and the graph-level statements are unchanged (the hypothesis `g.Inv` of
 `Graph.resolve_no_fuel_error` turned out to be unnecessary).  The proofs are in `DgraphFuel.lean` (graph level) and
 `LoopSafeLemmas.lean` (`notifySteps` never panics from a `GSafe` graph).
 -/
@@ -28,6 +35,7 @@ import Arca.Proofs.LoopDag
 import Arca.Proofs.LoopInv
 import Arca.Proofs.DgraphFuel
 import Arca.Proofs.LoopSafeLemmas
+import Arca.Proofs.LoopFinished
 
 set_option linter.unusedVariables false
 
@@ -45,6 +53,14 @@ def LegalEvent (P : Prepared) (s : LoopState) : Event → Prop
   | .start _ => NoOutputResolved P s ∧ (∀ n ∈ s.dag.nodes, n.status = St.waiting)
   | .stageChange _ none _ _ => True
   | .stageChange step (some prev) out _ =>
+      P.declares step prev ∧
+      statusIs s.dag (stageNodeId step prev) St.waiting ∧
+      (∀ ed ∈ P.dag.edges, ed.2.1 = stageNodeId step prev → ed.2.2 = Dep.and → statusIs s.dag ed.1 St.resolved) ∧
+      (∀ ed ∈ P.dag.edges, ed.2.1 = stageNodeId step prev → ed.2.2 ≠ Dep.or) ∧
+      (∀ oid v, out = some (oid, v) → oid ∈ P.outputsOf step prev ∧
+          ∀ o ∈ P.outputsOf step prev, statusIs s.dag (outputNodeId step prev o) St.waiting)
+  | .stepComplete step prev out _ =>
+      -- the same contract as for a stage change: OnStepComplete reports the end of the step's last stage
       P.declares step prev ∧
       statusIs s.dag (stageNodeId step prev) St.waiting ∧
       (∀ ed ∈ P.dag.edges, ed.2.1 = stageNodeId step prev → ed.2.2 = Dep.and → statusIs s.dag ed.1 St.resolved) ∧
@@ -76,6 +92,11 @@ structure Prepared.WF2 (P : Prepared) : Prop where
   /-- (ADDED) the item of the `input` node has kind `input`: were it a dependency group, `notifySteps` would try to
   resolve the already resolved node and panic (`Cex.CE_input_group`) -/
   input_kind : ∀ it, lookup "input" P.items = some it → it.kind = Kind.input
+  /-- (ADDED with the repair of finding F11) node ids of stage nodes are unambiguous.  When a step completes the loop now
+  marks the stage nodes of all stages the step did not go through as unresolvable; with ids such as `steps.a.b.c`
+  (= stage `b.c` of step `a` = stage `c` of step `a.b`) that hits a node another step has legally resolved and the
+  graph library refuses: `panic markStageNodeUnresolvable` (`SafeCex.hist_needs_stage_unamb`) -/
+  stage_unamb : P.StageUnamb
 
 /-! ### graph level -/
 
@@ -128,6 +149,10 @@ structure LoopSafeInv (P : Prepared) (s : LoopState) : Prop where
   ready_nodup : s.dag.ready.Nodup
   ready_group : ∀ id ∈ s.dag.ready, isGroup P id → ¬ statusIs s.dag id St.resolved
   group_soft : ∀ n ∈ s.dag.nodes, n.status = St.resolved → isGroup P n.id → ∀ p ∈ n.out, p.2.hard = false
+  /-- (ADDED with the repair of finding F11) every resolved stage / stage-output node belongs to a stage recorded in
+  `finishedStages`: `markRemainingStagesUnresolvable` marks the nodes of all other stages of a completed step, which
+  the graph library refuses for a resolved node (`SafeCex.react_needs_finished_inv`) -/
+  finished : FinishedInv P s
 
 theorem GSafe.of_inv {P : Prepared} {s : LoopState} (h : LoopDagInv P s) (hc : LoopSafeInv P s) : GSafe P s.dag := by
   refine ⟨h.inv, h.edges, h.ids, (resolvedClosed_iff _ h.inv.nodup).1 hc.closed, hc.ready_nodup, ?_, ?_⟩
@@ -141,12 +166,22 @@ theorem GSafe.of_inv {P : Prepared} {s : LoopState} (h : LoopDagInv P s) (hc : L
 theorem GSafe.dagInv {P : Prepared} {s : LoopState} (hg : GSafe P s.dag) : LoopDagInv P s :=
   ⟨hg.inv, hg.edges, hg.ids⟩
 
-theorem GSafe.safeInv {P : Prepared} {s : LoopState} (hg : GSafe P s.dag) : LoopSafeInv P s := by
-  refine ⟨(resolvedClosed_iff _ hg.inv.nodup).2 hg.closed, hg.ready_nodup, ?_, ?_⟩
+theorem GSafe.safeInv {P : Prepared} {s : LoopState} (hg : GSafe P s.dag) (hf : FinishedInv P s) : LoopSafeInv P s := by
+  refine ⟨(resolvedClosed_iff _ hg.inv.nodup).2 hg.closed, hg.ready_nodup, ?_, ?_, hf⟩
   · rintro id hid hgr ⟨n, hn, hs⟩
     exact hg.ready_group id hid hgr n hn hs
   · intro n hnm hs hgr
     exact hg.group_soft n.id n (Graph.find?_of_mem hg.inv.nodup hnm) hs hgr
+
+/-- a legal callback names a declared stage and a declared output -/
+theorem LegalEvent.declared {P : Prepared} {s : LoopState} {e : Event} (h : LegalEvent P s e) : EventDeclared P e := by
+  cases e with
+  | stageChange step prev out busy =>
+    cases prev with
+    | none => trivial
+    | some p => exact ⟨h.1, fun oid v ho => (h.2.2.2.2 oid v ho).1⟩
+  | stepComplete step prev out busy => exact ⟨h.1, fun oid v ho => (h.2.2.2.2 oid v ho).1⟩
+  | _ => trivial
 
 theorem Prepared.WF2.notifyWF {P : Prepared} (hP : P.WF2) : P.NotifyWF :=
   ⟨hP.wf.items_nodes, hP.stage_data_map, hP.stage_ids_nonempty, hP.kinds_handled⟩
@@ -237,16 +272,79 @@ theorem markStageUnres_good (step stage : String) (r : R) (hg : Good P r)
       (fun hs => hns ⟨n, hn, hs⟩)
     rw [hok] at he; cases he
 
+theorem declares_of_mem_stagesOf {step stage : String} (h : stage ∈ P.stagesOf step) : P.declares step stage := by
+  unfold Prepared.stagesOf at h
+  split at h
+  · cases h
+  · rename_i sts hsts
+    refine ⟨sts, ?_⟩
+    suffices ∃ outs, lookup stage sts = some outs by
+      obtain ⟨outs, ho⟩ := this
+      exact ⟨outs, hsts, ho⟩
+    clear hsts
+    induction sts with
+    | nil => cases h
+    | cons x rest ih =>
+      obtain ⟨k, v⟩ := x
+      simp only [lookup]
+      split
+      · exact ⟨v, rfl⟩
+      · rename_i hne
+        simp only [List.map_cons, List.mem_cons] at h
+        rcases h with h | h
+        · exact absurd h hne
+        · exact ih h
+
+theorem markRemainingOne_good (step : String) (r : R) (stage : String) (hg : Good P r) (hf : FinishedInv P r.1)
+    (hd : P.declares step stage) : Good P (markRemainingOne P step r stage) := by
+  unfold markRemainingOne
+  split
+  · exact hg
+  rename_i hc
+  have hnm : (step, stage) ∉ r.1.finished := by
+    intro hm
+    exact hc (List.contains_iff_mem.2 hm)
+  obtain ⟨h1, h2⟩ := hf step stage hd hnm
+  have hg1 : Good P (markOutputsUnres P step stage none r) :=
+    markOutputsUnres_good step stage none r hg (fun o ho _ => h2 o ho)
+  have hq := (markOutputsUnres_props (P := P) step stage none r hg.safe.inv).1
+  exact markStageUnres_good step stage _ hg1 (fun hx => h1 (hq.nonew _ hx))
+
+/-- `markRemainingStagesUnresolvable` never panics when the stages not recorded as finished have no resolved node -/
+theorem markRemaining_good (step : String) (r : R) (hg : Good P r) (hf : FinishedInv P r.1) :
+    Good P (markRemaining P step r) := by
+  unfold markRemaining
+  have hall : ∀ x ∈ P.stagesOf step, P.declares step x := fun x hx => declares_of_mem_stagesOf hx
+  revert hall
+  generalize P.stagesOf step = l
+  intro hall
+  induction l generalizing r with
+  | nil => exact hg
+  | cons x rest ih =>
+    rw [List.foldl_cons]
+    have h1 := markRemainingOne_good step r x hg hf (hall x List.mem_cons_self)
+    have q := markRemainingOne_quiet (P := P) step r x hg.safe.inv
+    exact ih _ h1 (hf.quiet q) (fun y hy => hall y (List.mem_cons_of_mem _ hy))
+
+theorem finishStage_good (hP : P.WF2) (fns : Fns) (ord : Order) (hord : OrdOK ord) (hnd : OrdNodup ord)
+    (step : String) (complete : Bool) (r : R) (hg : Good P r) (hf : FinishedInv P r.1) :
+    Good P (finishStage P fns ord step complete r) := by
+  have hN := notifySteps_moves hP.notifyWF fns ord hord hnd (notifyFuel P)
+  unfold finishStage
+  split
+  · exact (hN _ (markRemaining_good step r hg hf)).good
+  · exact (hN _ hg).good
+
 theorem onStageCompleteBody_good (hP : P.WF2) (fns : Fns) (ord : Order) (hord : OrdOK ord) (hnd : OrdNodup ord)
-    (step prev : String) (out : Option (String × Val)) (r : R) (hg : Good P r)
+    (step prev : String) (out : Option (String × Val)) (complete : Bool) (r : R) (hg : Good P r)
+    (hf : FinishedInv P r.1)
     (hdecl : P.declares step prev)
     (hw : statusIs r.1.dag (stageNodeId step prev) St.waiting)
     (hand : ∀ ed ∈ P.dag.edges, ed.2.1 = stageNodeId step prev → ed.2.2 = Dep.and → statusIs r.1.dag ed.1 St.resolved)
     (hnor : ∀ ed ∈ P.dag.edges, ed.2.1 = stageNodeId step prev → ed.2.2 ≠ Dep.or)
     (hout : ∀ oid v, out = some (oid, v) → oid ∈ P.outputsOf step prev ∧
       ∀ o ∈ P.outputsOf step prev, statusIs r.1.dag (outputNodeId step prev o) St.waiting) :
-    Good P (onStageCompleteBody P fns ord step prev out r) := by
-  have hN := notifySteps_moves hP.notifyWF fns ord hord hnd (notifyFuel P)
+    Good P (onStageCompleteBody P fns ord step prev out complete r) := by
   obtain ⟨n, hn, hnw⟩ := hw
   have hcl : ClosedAt r.1.dag (stageNodeId step prev) n := by
     refine ⟨?_, ?_⟩
@@ -272,9 +370,12 @@ theorem onStageCompleteBody_good (hP : P.WF2) (fns : Fns) (ord : Order) (hord : 
     rintro ⟨it, hit, hk⟩
     rw [hP.wf.stage_kind step prev it hdecl hit] at hk
     cases hk)
-  have hg1 : Good P ({ r.1 with dag := g }, r.2) := hm1.good
+  have hg1 : Good P ({ r.1 with dag := g, finished := (step, prev) :: r.1.finished }, r.2) :=
+    ⟨hm1.good.safe, hm1.good.nopanic⟩
+  have hf1 : FinOK P g ((step, prev) :: r.1.finished) :=
+    FinOK.resolve_stage hP.wf hP.stage_unamb hg.safe.ids hf hdecl hokg
   split
-  · exact (hN _ hg1).good
+  · exact finishStage_good hP fns ord hord hnd step complete _ hg1 hf1
   rename_i oid v
   obtain ⟨hoid, hallw⟩ := hout oid v rfl
   split
@@ -302,7 +403,7 @@ theorem onStageCompleteBody_good (hP : P.WF2) (fns : Fns) (ord : Order) (hord : 
     rcases hcases with ⟨g2, h2, _⟩ | ⟨a, b, c, h2⟩ <;> (rw [h2] at he; cases he)
   · exact (Moves.sendErr_cancel (ex := fun _ => False) hg1 _).good
   rename_i g2 hok2
-  have hg2 : Good P ({ r.1 with dag := g2 }, r.2) :=
+  have hg2 : Good P ({ r.1 with dag := g2, finished := (step, prev) :: r.1.finished }, r.2) :=
     (Moves.resolve hg1 hok2 (by
       intro _ m hm
       have hm : g.find? (outputNodeId step prev oid) = some m := hm
@@ -311,7 +412,15 @@ theorem onStageCompleteBody_good (hP : P.WF2) (fns : Fns) (ord : Order) (hord : 
       rintro ⟨it, hit, hk⟩
       rw [hP.wf.output_kind step prev oid it hdecl hoid hit] at hk
       cases hk)).good
-  have hg3 : Good P (markOutputsUnres P step prev (some oid) ({ r.1 with dag := g2 }, r.2)) := by
+  have hf2 : FinOK P g2 ((step, prev) :: r.1.finished) :=
+    FinOK.resolve_output hP.wf hg1.safe.ids hf1 hdecl hoid List.mem_cons_self hok2
+  have hq3 := (markOutputsUnres_props (P := P) step prev (some oid)
+    ({ r.1 with dag := g2, finished := (step, prev) :: r.1.finished }, r.2) hg2.safe.inv).1
+  have hf3 : FinishedInv P (markOutputsUnres P step prev (some oid)
+      ({ r.1 with dag := g2, finished := (step, prev) :: r.1.finished }, r.2)).1 :=
+    FinishedInv.quiet (r := ({ r.1 with dag := g2, finished := (step, prev) :: r.1.finished }, r.2)) hf2 hq3
+  have hg3 : Good P (markOutputsUnres P step prev (some oid)
+      ({ r.1 with dag := g2, finished := (step, prev) :: r.1.finished }, r.2)) := by
     apply markOutputsUnres_good step prev (some oid) _ hg2
     intro o ho hne hx
     rcases resolve_newRes hok2 hx with ⟨heq, _⟩ | h1
@@ -322,12 +431,11 @@ theorem onStageCompleteBody_good (hP : P.WF2) (fns : Fns) (ord : Order) (hord : 
         cases this
   split
   · exact hg3
-  · refine (hN _ ?_).good
-    exact ⟨hg3.safe, hg3.nopanic⟩
+  · exact finishStage_good hP fns ord hord hnd step complete _ ⟨hg3.safe, hg3.nopanic⟩ hf3
 
 /-- every legal callback keeps `Good` -/
 theorem react_good (hP : P.WF2) (fns : Fns) (ord : Order) (hord : OrdOK ord) (hnd : OrdNodup ord)
-    (s : LoopState) (e : Event) (hg : GSafe P s.dag) (hl : LegalEvent P s e) :
+    (s : LoopState) (e : Event) (hg : GSafe P s.dag) (hf : FinishedInv P s) (hl : LegalEvent P s e) :
     Good P (react P fns ord s e) := by
   have hN := notifySteps_moves hP.notifyWF fns ord hord hnd (notifyFuel P)
   have hg0 : Good P (s, []) := ⟨hg, fun _ h => nomatch h⟩
@@ -371,7 +479,12 @@ theorem react_good (hP : P.WF2) (fns : Fns) (ord : Order) (hord : OrdOK ord) (hn
     · rename_i step out busy _ p
       obtain ⟨hdecl, hw, hand, hnor, hout⟩ := hl
       exact checkDeadlock_good 3 busy
-        (onStageCompleteBody_good hP fns ord hord hnd step p out (s, []) hg0 hdecl hw hand hnor hout)
+        (onStageCompleteBody_good hP fns ord hord hnd step p out false (s, []) hg0 hf hdecl hw hand hnor hout)
+  · -- stepComplete
+    rename_i step prev out busy
+    obtain ⟨hdecl, hw, hand, hnor, hout⟩ := hl
+    exact checkDeadlock_good 3 busy
+      (onStageCompleteBody_good hP fns ord hord hnd step prev out true (s, []) hg0 hf hdecl hw hand hnor hout)
   · -- stageFail
     rename_i step stage
     obtain ⟨_, hns, hno⟩ := hl
@@ -407,8 +520,9 @@ CHANGED with respect to the first statement (counterexamples in `LoopSafeCex.lea
 theorem react_legal_no_panic (P : Prepared) (fns : Fns) (ord : Order) (hord : OrdOK ord) (hnd : OrdNodup ord)
     (hP : P.WF2) (s : LoopState) (e : Event) (h : LoopDagInv P s) (hc : LoopSafeInv P s) (hl : LegalEvent P s e) :
     (∀ a ∈ (react P fns ord s e).2, a.isPanic = false) ∧ LoopSafeInv P (react P fns ord s e).1 := by
-  have := react_good hP fns ord hord hnd s e (GSafe.of_inv h hc) hl
-  exact ⟨this.nopanic, this.safe.safeInv⟩
+  have := react_good hP fns ord hord hnd s e (GSafe.of_inv h hc) hc.finished hl
+  exact ⟨this.nopanic,
+    this.safe.safeInv (react_finished_inv P fns ord hP.wf hP.stage_unamb s e h hc.finished hl.declared)⟩
 
 /-- the first conclusion as originally stated: resolved nodes stay closed -/
 theorem react_legal_closed (P : Prepared) (fns : Fns) (ord : Order) (hord : OrdOK ord) (hnd : OrdNodup ord)
@@ -419,7 +533,7 @@ theorem react_legal_closed (P : Prepared) (fns : Fns) (ord : Order) (hord : OrdO
 /-- the initial state satisfies the panic-freedom invariant -/
 theorem init_safe_inv (P : Prepared) (hP : P.WF) : LoopSafeInv P (LoopState.init P) := by
   have hw : ∀ n ∈ (LoopState.init P).dag.nodes, n.status = St.waiting := fun n hn => (hP.fresh n hn).1
-  refine ⟨?_, ?_, ?_, ?_⟩
+  refine ⟨?_, ?_, ?_, ?_, init_finished_inv P hP⟩
   · intro n hn hs
     rw [hw n hn] at hs; cases hs
   · show P.dag.clone.ready.Nodup
